@@ -8,6 +8,7 @@ CONSTANTS
   WalkLen = @@WALKLEN@@
   ProbeKinds = @@PROBES@@
   Vias = @@VIAS@@
+  SharedProbes = @@SHARED@@
   EvalOnTemp = "@@EVALTEMP@@"
 VIEW View
 ACTION_CONSTRAINT EmitEdge
